@@ -32,6 +32,7 @@ inline std::string gen_bytes(uint64_t seed,size_t len,int kind){
 // ---------------------------------------------------------------- logical request
 struct Req {
 	std::string method = "GET";
+	long long xlimit = -1;   // >= 0: the content-filter application sets request().limits() (content length and multipart limit) to this many bytes before the body is read (header X-Limit)
 	std::string host = "sim.example"; bool host_last = false;   // Host header (HTTP_HOST); host_last: sent behind all other headers (HTTP)
 	std::string script = "/s";        // configured script name (mount)
 	std::string path = "/echo";       // raw (still percent-encoded) path after the script name
